@@ -24,10 +24,9 @@ import json
 from ..cfg import cfg_of
 from ..core import Ctx
 from ..exc import ExcModel
-from ..loader import AnalysisError, FunctionInfo, norm, walk_scope
-from ..resolve import last_attr
-from ..util import calls, names_in, one, try_protecting, txt
-from ._g5_helpers import AbsObj, Interp, NullLogger, Raised, Recorder
+from ..loader import AnalysisError, norm, walk_scope
+from ..util import calls, try_protecting, txt
+from ._g5_helpers import AbsObj, Interp, Raised, Recorder
 from .c34 import EMIT, emit_records
 
 META = {
